@@ -25,7 +25,7 @@ ASSUMPTIONS = ["supported encodings are the ASCII-compatible ones (utf-8, ascii,
                "a run in which the trainer does not complete is skipped and counted"]
 
 _DIR = None
-SINGLE_BYTE = ['latin-1', 'cp1251', 'cp1252', 'ascii']
+SINGLE_BYTE = ['latin-1', 'cp1251', 'cp1252', 'ascii', 'iso-8859-15', 'iso-8859-2', 'koi8-r', 'cp1250']
 
 
 def _dir():
@@ -73,6 +73,34 @@ def roundtrip(values, enc, case):
     if not bad and (len(got_g) != len(want) or len(got_s) != len(want) or not g_ok or not s_ok):
         return list(values), 'extra_or_failed'
     return bad, None
+
+
+def roundtrip_positions(v, order, enc, case):
+    """v as the first (most probable) or last (least probable) line of a small file."""
+    from lib_trainer.save_pcfg_data import calculate_and_save_counter
+    from lib_guesser.grammar_io import _load_from_file as gload
+    from lib_scorer.grammar_io import _load_from_file as sload
+    path = os.path.join(_dir(), 'pos.txt')
+    cnt = Counter()
+    if order == 'first':
+        cnt[v] = 5
+        cnt['zz'] = 2
+        cnt['yy'] = 1
+    else:
+        cnt['zz'] = 5
+        cnt['yy'] = 3
+        cnt[v] = 1
+    total = sum(cnt.values())
+    with core.quiet():
+        guard(case, calculate_and_save_counter, path, cnt, enc)
+        section, sc = [], Counter()
+        guard(case, gload, section, path, enc)
+        guard(case, sload, sc, path, enc)
+    want = {k: c / total for k, c in cnt.items()}
+    got_g = {x: grp['prob'] for grp in section for x in grp['values']}
+    if got_g != want or dict(sc) != want:
+        return [v], 'position'
+    return [], None
 
 
 def find_bad(values, enc, case):
@@ -145,6 +173,30 @@ def run_sweep(rec, seed, shard, nshards, tier):
         padded = [v for v in padded if accepted(v, 'utf-8')]
         rec.count(len(padded))
         bad_all.extend(find_bad(padded, 'utf-8', dict(case, sweep='padded')))
+    # position-sensitive round trip: every "special" code point (white space, format, separator characters - the ones readers
+    # are tempted to trim) as the FIRST and as the LAST line of a file of its own; quick tier: those classes, thorough: in addition
+    # every 97th code point of the shard
+    import unicodedata
+    def special(cp_):
+        ch = chr(cp_)
+        return ch.isspace() or unicodedata.category(ch) in ('Zs', 'Zl', 'Zp', 'Cf', 'Cc', 'Mn', 'Lm', 'Sk') and cp_ < 0x3100 or cp_ in (0xfeff, 0xfffe, 0xffff, 0xfff9, 0xfffa, 0xfffb, 0xfffc, 0xfffd, 0xe0001, 0x1d173)
+    n_pos = 0
+    for cp in range(a, b):
+        if 0xd800 <= cp <= 0xdfff:
+            continue
+        if not (special(cp) or (tier == 'thorough' and cp % 97 == 0)):
+            continue
+        c = chr(cp)
+        for v in (c, c + 'b', 'a' + c):
+            if not accepted(v, 'utf-8'):
+                continue
+            for order in ('first', 'last'):
+                bad_, why = roundtrip_positions(v, order, 'utf-8', case)
+                n_pos += 1
+                if bad_:
+                    bad_all.append(v)
+    rec.count(n_pos)
+    rec.classes['first_or_last_line_positions'] += n_pos
     rec.exhaustive = True
     if bad_all:
         shown = [(v if isinstance(v, str) else str(v)) for v in bad_all[:6]]
@@ -290,7 +342,7 @@ def prop(case, rec):
 @st.composite
 def cases(draw):
     from .c03 import in_domain
-    enc = draw(st.sampled_from(['utf-8', 'utf-8', 'ascii', 'latin-1', 'cp1251', 'cp1252', 'latin-1', 'cp1251']))
+    enc = draw(st.sampled_from(['utf-8', 'utf-8', 'ascii', 'latin-1', 'cp1251', 'cp1252', 'latin-1', 'cp1251', 'iso-8859-15', 'iso-8859-2', 'koi8-r']))
     n = draw(st.integers(1, 14))
     entries, seen = [], set()
     from .c19 import valid_password, encodable
@@ -305,6 +357,12 @@ def cases(draw):
         base += [['Пароль12', 3], ['привет!', 2]]
     if enc in ('utf-8', 'latin-1', 'cp1252'):
         base += [['Mañana#1', 2], ['straße99', 2], ['café§', 1]]
+    if enc == 'iso-8859-15':
+        base += [['100\u20ac', 2], ['c\u0153ur1', 2], ['\u0160koda12', 1]]
+    if enc == 'iso-8859-2':
+        base += [['\u017e\u00e1ba12', 2]]
+    if enc == 'koi8-r':
+        base += [['\u043f\u0430\u0440\u043e\u043b\u044c1', 2]]
     entries += [e for e in base if e[0] not in seen]
     raw = []
     for _ in range(draw(st.integers(0, 4))):
